@@ -287,6 +287,8 @@ struct Gen {
     rng: Rng,
     /// the last call of tail() appended something
     tailed: bool,
+    /// inside a glue specification (what follows a dimension there may name registers)
+    in_glue: bool,
 }
 
 fn ends_blank(v: &[Tok]) -> bool {
@@ -550,6 +552,11 @@ impl Gen {
             self.kw(v, w);
             self.maybe_space(v, 2, 3);
         } else {
+            // TeX 457: `true' in front of a physical unit; scan_keyword passes over blanks in front of the unit
+            if self.rng.chance(1, 6) {
+                self.kw(v, "true");
+                self.maybe_space(v, 1, 2);
+            }
             let w = *self.rng.pick(&PHYS);
             self.kw(v, w);
             self.maybe_space(v, 2, 3);
@@ -587,6 +594,7 @@ impl Gen {
                 self.unit(v, inf, regs);
             }
             k => {
+                let mut blank_before_point = false;
                 let point = if self.rng.chance(1, 8) { ',' } else { '.' };
                 if k == 3 {
                     // fraction only
@@ -597,18 +605,30 @@ impl Gen {
                     let n = self.int_part();
                     self.constant(v, n, false);
                     if self.rng.chance(2, 3) {
+                        // a blank ends the integer: the point after it is no longer part of the number (TeX 448);
+                        // what follows is then typeset, so it must not be a register (that would be an assignment)
+                        if !self.in_glue && self.rng.chance(1, 8) && !ends_blank(v) {
+                            v.push(Tok::Ch(' '));
+                            blank_before_point = true;
+                        }
                         v.push(Tok::Ch(point));
                         let f = self.fraction_digits();
                         push_str(v, &f);
                     }
                 }
                 self.maybe_space(v, 1, 3);
-                self.unit(v, inf, regs);
+                self.unit(v, inf, if blank_before_point { &[] } else { regs });
             }
         }
     }
 
     fn glue_text(&mut self, v: &mut Vec<Tok>, regs: &[(u8, u8)]) {
+        self.in_glue = true;
+        self.glue_text_impl(v, regs);
+        self.in_glue = false;
+    }
+
+    fn glue_text_impl(&mut self, v: &mut Vec<Tok>, regs: &[(u8, u8)]) {
         let skips: Vec<(u8, u8)> = regs.iter().copied().filter(|r| r.0 == 3).collect();
         if !skips.is_empty() && self.rng.chance(1, 8) {
             self.signs(v, true);
@@ -842,7 +862,7 @@ fn vm_events(args: &Args) -> i32 {
     let n: u64 = args.num("n", 1000);
     let pairs: u64 = args.num("pairs", 1);
     let mut out = Out::new(args.str("out"));
-    let mut g = Gen { rng: Rng::new(seed ^ 0xC06), tailed: false };
+    let mut g = Gen { rng: Rng::new(seed ^ 0xC06), tailed: false, in_glue: false };
 
     // ---- (a) every ordered pair of boundary operands, for each primitive and register type
     if pairs != 0 {
